@@ -13,7 +13,7 @@ import (
 func init() {
 	register(Property{
 		ID: "C12",
-		Explanation: "Decided statically: R1 provenance of the two comment indexes - under the assumption isTrailing == t every store of the collecting closure writes the index of class t, and a comment group is entered as 'leading' only if it is some node's .Doc, or the generic *ast.CommentGroup visit filtered by a membership test in a set that holds the .Comment group of every node kind that has one (Field, ValueSpec, TypeSpec, ImportSpec); a .Comment group is only ever entered as 'trailing' (so a trailing comment can never become the next line's doc); R2 Doc looks up line-1 and Comment line+0, and the trailing index is consulted only for delta 0; R3 index keys: trailing entries at the statement's own line, leading entries at the line above the statement or the line the group ends on, first entry wins; R4 tag extraction: every iteration appends the line to exactly one of {other lines, tags[key]}, decided by a condition that is equivalent (truth table over {line empty, first byte is a marker}; membership test recognised semantically) to `non-empty and first byte is one of the markers`, on the line trimmed with cutset \" \", default markers are '+' and '@', key/value split happens at the first '=' or ' ' only, and lines starting with go: are dropped from comment lines. NOT decided: the exact text of returned lines for every comment layout (block comments, TrimSpace, blank lines) - value level.",
+		Explanation: "Decided statically: R1 provenance of the two comment indexes - under the assumption isTrailing == t every store of the collecting closure writes the index of class t, and a comment group is entered as 'leading' only if it is some node's .Doc, or the generic *ast.CommentGroup visit filtered by a membership test in a set that holds the .Comment group of every node kind that has one (Field, ValueSpec, TypeSpec, ImportSpec); a .Comment group is only ever entered as 'trailing' (so a trailing comment can never become the next line's doc); R2 Doc looks up line-1 and Comment line+0, and the trailing index is consulted only for delta 0; R3 index keys: trailing entries at the statement's own line, leading entries at the line above the statement or the line the group ends on, first entry wins; R4 tag extraction: every iteration appends the line to exactly one of {other lines, tags[key]}, decided by a condition that is equivalent (truth table over {line empty, first byte is a marker}; membership test recognised semantically) to `non-empty and first byte is one of the markers`, on the line trimmed with cutset \" \", default markers are '+' and '@', key/value split happens at the first '=' or ' ' only, and lines starting with go: are dropped from comment lines. R1 also: a filter-set store cannot be bypassed inside its case clause (only an `x.Comment != nil` guard is tolerated); R5 Doc, Comment and what they call write no receiver state and fill no cache (callers edit the returned lines in place). NOT decided: the exact text of returned lines for every comment layout (block comments, TrimSpace, blank lines) - value level.",
 		Assumptions: append([]string{"ast.Inspect visits a node before its children (so a spec's .Comment is marked before the generic comment-group visit sees it)"}, commonAssumptions...),
 		Run:         runC12,
 	})
@@ -28,6 +28,27 @@ func runC12(p *core.Program, r *core.Report) {
 	c12R1R3(p, r, np)
 	c12R2(p, r)
 	c12R4(p, r)
+	// R5: Doc and Comment build their answer from the indexes on every call and remember
+	// nothing: a shared (cached) result is edited by callers - Context.Doc strips the type name
+	// from the first line in place - so the next lookup would not return the comment's lines
+	r.Floor("R5", 1)
+	roots := []*core.Func{}
+	for _, n := range []string{"(*pkgInfo).Doc", "(*pkgInfo).Comment"} {
+		if f := p.FuncByName("pkg/types", n); f != nil {
+			roots = append(roots, f)
+		} else {
+			r.Anchor("R5", "pkg/types."+n)
+		}
+	}
+	if len(roots) == 2 {
+		reach := map[*core.Func]bool{}
+		for f := range reachableFrom(p, roots...) {
+			if core.RelPkg(f.Pkg.PkgPath) == "pkg/types" {
+				reach[f.Root()] = true
+			}
+		}
+		universeWriteScan(p, r, "R5", reach)
+	}
 }
 
 // isCommentGroupMap: map[fileLine]*ast.CommentGroup field
@@ -561,6 +582,7 @@ func genericVisitFiltered(p *core.Program, f *core.Func, call *ast.CallExpr, x *
 	// stores into the set, anywhere in the root function
 	root := f.Root()
 	have := map[string]bool{}
+	var skipped []string
 	bad := false
 	for _, ff := range p.Funcs() {
 		if ff.Root() != root {
@@ -578,10 +600,62 @@ func genericVisitFiltered(p *core.Program, f *core.Func, call *ast.CallExpr, x *
 			if !ok || core.VarOf(info, ix.X) != set {
 				return true
 			}
+			// the store must run for every node of its kind: from the start of its case clause no
+			// path may leave the clause around the store (an early return for e.g. unnamed fields
+			// would let embedded fields' trailing comments through)
+			bypass := false
+			path := core.PathTo(ff.Body, as)
+			for k := len(path) - 1; k >= 0; k-- {
+				cc, isCC := path[k].(*ast.CaseClause)
+				if !isCC || len(cc.Body) == 0 {
+					continue
+				}
+				fg := graph(ff)
+				start := fg.FirstIn(cc.Body[0])
+				sp := fg.PointOf(as)
+				if start.Valid() && sp.Valid() {
+					_, bypass = fg.Reach(start, true, cfgx.Query{
+						Target: func(q cfgxPoint) bool {
+							if fg.IsExit(q) {
+								return true
+							}
+							// left the clause
+							n := q.Node()
+							return n != nil && !(cc.Pos() <= n.Pos() && n.End() <= cc.End())
+						},
+						Cut: func(q cfgxPoint) bool { return q == sp },
+						CutEdge: func(b *cfgBlock, k int) bool {
+							// `if x.Comment != nil { ... }` around the store is harmless
+							if len(b.Succs) != 2 || len(b.Nodes) == 0 {
+								return false
+							}
+							e, ok := b.Nodes[len(b.Nodes)-1].(ast.Expr)
+							if !ok {
+								return false
+							}
+							for _, a := range cfgx.Atoms(e, k == 0) {
+								if bb, ok := ast.Unparen(a.Cond).(*ast.BinaryExpr); ok && (bb.Op == token.EQL || bb.Op == token.NEQ) {
+									if id, ok := ast.Unparen(bb.Y).(*ast.Ident); ok && id.Name == "nil" {
+										if sel, ok := ast.Unparen(bb.X).(*ast.SelectorExpr); ok && sel.Sel.Name == "Comment" && ((bb.Op == token.EQL) == a.Val) {
+											return true
+										}
+									}
+								}
+							}
+							return false
+						},
+					})
+				}
+				break
+			}
 			for _, site := range expandParam(p, ff, ix.Index, nil, 0) {
 				sel, ok := ast.Unparen(site.E).(*ast.SelectorExpr)
 				if !ok || sel.Sel.Name != "Comment" {
 					bad = true // something else than a .Comment group is filtered out
+					continue
+				}
+				if bypass {
+					skipped = append(skipped, core.NamedTypeName(info.TypeOf(sel.X)))
 					continue
 				}
 				have[core.NamedTypeName(info.TypeOf(sel.X))] = true
@@ -591,6 +665,9 @@ func genericVisitFiltered(p *core.Program, f *core.Func, call *ast.CallExpr, x *
 	}
 	if bad {
 		return false, " (the filter set also receives groups that are not a node's .Comment)"
+	}
+	if len(skipped) > 0 {
+		return false, " (the .Comment of " + strings.Join(skipped, ", ") + " is entered in the filter set on some paths only: nodes of that kind that take the other path - e.g. embedded fields, which have no names - leak their trailing comment)"
 	}
 	var missing []string
 	for _, k := range []string{"go/ast.Field", "go/ast.ValueSpec", "go/ast.TypeSpec", "go/ast.ImportSpec"} {
